@@ -13,4 +13,9 @@ open Gen.Rest
 
 theorem skel_mod : skel_mod_der = Rest.Skel.mod_der := rfl
 
+/-- `der.oid_to_text` (fix F15): the text of the helper that keeps error messages from raising on oversized integers; its
+threshold is 2^64 on both sides -/
+theorem skel_oid_to_text : skel_der_oid_to_text = Rest.Skel.der_oid_to_text := rfl
+theorem oid_to_text_threshold : der_oid_to_text_e0 = -(2 : Int) ^ 64 ∧ der_oid_to_text_e1 = (2 : Int) ^ 64 := by decide
+
 end CtDer.Tie
